@@ -1002,3 +1002,74 @@ Example c16_async_fasta_records_example :
      = [NV.Fasta.Reader.mkfrec [97]%N (Some [120]%N) [65; 67]%N; NV.Fasta.Reader.mkfrec [98]%N None [71]%N].
 Proof. vm_compute. split; reflexivity. Qed.
 End FR.
+
+(* ============================================================================================
+   The async CSI and tabix index readers as read programs over C12's NV.Io.Prog (model:
+   NV.Async.CsiRead), against C17's whole-buffer models of the sync readers (NV.Index.CsiLayout).
+   ============================================================================================ *)
+From NV Require Io.Prog Io.ProgProofs Async.CsiRead Async.CsiReadProofs Index.CsiLayout.
+Module IC.
+Import NV.Io.Source NV.Io.ReadExact NV.Io.Run NV.Io.Prog NV.Async.ReadExact.
+Import NV.Async.CsiRead NV.Async.CsiReadProofs.
+
+(* the generic lemma for C12's program language: a read program without read_until (read_exact loops
+   and take + read_to_end with arbitrary request sizes), run over the awaited source under ANY poll
+   script and over the scripted sync source under any delivery script, returns what it returns on
+   the bytes *)
+Theorem c16_async_io_prog_equals_sync :
+  forall (A : Type) (p : prog A), until_free p ->
+  forall polls req req' script d,
+    fst (run_raw aread req a_fuel p (mkASource d polls)) = fst (run_pure p d)
+    /\ fst (run_raw src_read req' src_fuel p (mkSource d script)) = fst (run_pure p d).
+Proof. exact async_ioprog_equals_sync. Qed.
+Print Assumptions c16_async_io_prog_equals_sync.
+
+(* the async CSI / tabix readers: what they return does not depend on the poll script *)
+Theorem c16_async_csi_reader_poll_indep :
+  forall codes chunk payload, async_csi_case codes chunk payload = opt_rr (fst (run_pure a_csi payload)).
+Proof. exact async_csi_case_closed. Qed.
+Print Assumptions c16_async_csi_reader_poll_indep.
+
+Theorem c16_async_tbi_reader_poll_indep :
+  forall codes chunk payload, async_tbi_case codes chunk payload = opt_rr (fst (run_pure a_tbi payload)).
+Proof. exact async_tbi_case_closed. Qed.
+Print Assumptions c16_async_tbi_reader_poll_indep.
+
+(* the async CSI reader (every ordinary bin's loffset stored, also a loffset of 0; metadata pseudo-bin
+   by depth; optional n_no_coor) returns an index exactly when C17's model of the SYNC reader does,
+   the same index field by field, for every poll script -- on every payload whose aux block is
+   complete and fully consumed by the header in it *)
+Theorem c16_async_csi_reader_equals_sync :
+  forall codes chunk payload, csi_aux_ok payload ->
+    async_csi_case codes chunk payload = sync_csi_case payload.
+Proof. exact async_csi_reader_equals_sync. Qed.
+Print Assumptions c16_async_csi_reader_equals_sync.
+
+(* without that hypothesis the statement is false: an aux block longer than its header
+   (finding async-csi-aux-trailing-bytes-differs: the sync reader leaves the rest of the block in
+   the stream) *)
+Theorem c16_async_csi_reader_equals_sync_refuted :
+  exists payload, forall codes chunk, async_csi_case codes chunk payload <> sync_csi_case payload.
+Proof. exists csi_padded_aux. exact a_csi_padded_aux_differs. Qed.
+Print Assumptions c16_async_csi_reader_equals_sync_refuted.
+
+Definition c16_async_csi_reader_equals_sync_full_statement : Prop :=
+  forall codes chunk payload, async_csi_case codes chunk payload = sync_csi_case payload.
+
+(* NOT proved (compared on every atbi case): the async tabix program against C17's read_tbi *)
+Definition c16_async_tbi_reader_equals_sync_full_statement : Prop :=
+  forall codes chunk payload, async_tbi_case codes chunk payload = sync_tbi_case payload.
+
+(* non-vacuity: a CSI index (min_shift 14, depth 5, no aux) with one reference holding bin 0 whose
+   loffset is 0 and one chunk 0..7, read with 1-byte transfers *)
+Example c16_async_csi_reader_example :
+  let le4 := NV.Base.LE.le32 in
+  let le8 := NV.Base.LE.le64 in
+  let payload := ([67; 83; 73; 1] ++ le4 14 ++ le4 5 ++ le4 0 ++ le4 1
+                  ++ le4 1 ++ le4 0 ++ le8 0 ++ le4 1 ++ le8 0 ++ le8 7)%N in
+  async_csi_case [0; 2; 0; 2; 2; 2]%nat 8%nat payload
+  = Some (NV.Index.CsiLayout.mkcsi 14%N 5 None
+            [NV.Index.CsiLayout.mkcref [(0, [(0, 7)])]%N [(0, 0)]%N None] None)
+  /\ sync_csi_case payload = async_csi_case [] 1%nat payload.
+Proof. vm_compute. split; reflexivity. Qed.
+End IC.
